@@ -31,7 +31,7 @@ PINS = {
             ('pyworkers/persistent_process.py', 'PersistentProcessWorker.wait'), ('pyworkers/persistent_process.py', 'PersistentProcessWorker.close'),
             ('pyworkers/persistent_process.py', 'PersistentProcessWorker._release_child'), ('pyworkers/utils.py', 'PipeEndpoint'),
             ('pyworkers/persistent_thread.py', 'PersistentThreadWorker.wait'), ('pyworkers/persistent_thread.py', 'PersistentThreadWorker.close'),
-            ('pyworkers/persistent_thread.py', 'PersistentThreadWorker._release_child')],
+            ('pyworkers/persistent_thread.py', 'PersistentThreadWorker._release_child'), ('pyworkers/persistent_thread.py', 'PersistentThreadWorker.terminate')],
     'C11': [('pyworkers/remote_server.py', 'RemoteServer.run'), ('pyworkers/remote_server.py', 'RemoteServer.__init__')],
     'C18': [('pyworkers/remote_server.py', 'RemoteServer.run'), ('pyworkers/remote_context.py', 'RemoteContext')],
     'C20': [('pyworkers/remote.py', 'RemoteWorker._start'), ('pyworkers/remote.py', 'RemoteWorker._run_frontend'), ('pyworkers/remote.py', 'RemoteWorker.__setstate__'),
